@@ -6,6 +6,7 @@ package core
 import (
 	"bufio"
 	"crypto/sha1"
+	"crypto/sha256"
 	"encoding/binary"
 	"encoding/json"
 	"fmt"
@@ -393,4 +394,40 @@ func writePartial(st *Stats, part *Partial, start time.Time) {
 	for k := range bufs {
 		os.WriteFile(fmt.Sprintf("%s.h%x", out, k), bufs[k], 0o644)
 	}
+}
+
+// FuzzGen is the coverage-guided front end over the same generator and check: Go's native
+// fuzzer mutates the byte stream that rapid turns into draws (rapid.MakeFuzz), so coverage
+// feedback steers the structured generator. Thorough tier only; a failing case is written
+// as an ordinary JSON replay file and named in the failure message.
+func FuzzGen[C any](f *testing.F, prop string, gen func(*rapid.T) C, check func(C, *Stats) error) {
+	open := map[string]bool{}
+	for _, fd := range LoadFindings(prop) {
+		if fd.Status == "open" {
+			open[fd.ID] = true
+		}
+	}
+	// starting corpus: fixed pseudo-random streams, so the first generation already holds
+	// varied cases (an empty stream makes every draw minimal)
+	for i := 0; i < 24; i++ {
+		var b []byte
+		for j := 0; len(b) < 1536; j++ {
+			h := sha256.Sum256([]byte(fmt.Sprintf("%s/%d/%d", prop, i, j)))
+			b = append(b, h[:]...)
+		}
+		f.Add(b)
+	}
+	f.Fuzz(rapid.MakeFuzz(func(rt *rapid.T) {
+		c := gen(rt)
+		st := NewStats(prop)
+		st.open = open
+		if err := safeCheck(check, c, st); err != nil {
+			path := WriteReplay(prop, c, err.Error())
+			first := err.Error()
+			if i := strings.IndexByte(first, '\n'); i >= 0 {
+				first = first[:i]
+			}
+			rt.Fatalf("FUZZ-VIOLATION property=%s replay=%s :: %s", prop, path, first)
+		}
+	}))
 }
